@@ -98,6 +98,13 @@ Section Cls.
   Definition class_b : bool :=
     closed_b && alias_ok_b && uscore_plain_b && expand1_uniform_b && single_ok_b.
 
+  (* the decidable condition under which EVERY derivation of the matching grammar over the children of a parser
+     tree is a supported match: no name that owns root rules (rules_for_root) is also an inlined non-terminal of
+     the tree-matching grammar - i.e. every un-collapsing alternative of a ?rule and every alternative of an
+     aliased origin carries an alias *)
+  Definition plain_roots_b : bool :=
+    forallb (fun p => negb (is_nonterminal uscore P (fst p))) (rfr_all uscore P).
+
   (* the further hypotheses of the completeness / full round-trip theorems *)
   Definition extra_b : bool :=
     forallb (fun r => negb (skipped uscore P r) && match filter kept (p_exp r) with [] => false | _ => true end) P.
@@ -190,7 +197,8 @@ Record rcase := mkCase {
   c_exp_rules : list rrule;                (* TreeMatcher.rules *)
   c_exp_rfr : list (list rrule);           (* TreeMatcher.rules_for_root[name] for every name index *)
   c_in_class : bool;                       (* the harness's own evaluation of class_b on the rules *)
-  c_need_sup : bool;                       (* case generated inside the supported class: matches must be supported *)
+  c_need_sup : bool;
+  c_plain : bool;                          (* the harness's own evaluation of plain_roots_b *)                       (* case generated inside the supported class: matches must be supported *)
   c_cruns : list crun
 }.
 Definition c_runs (c : rcase) : list run := map expand_run (c_cruns c).
@@ -233,6 +241,7 @@ Definition check_case (c : rcase) : bool :=
   let us := uscore_of (c_names c) in
   check_rules c
   && Bool.eqb (class_b us (c_rules c)) (c_in_class c)
+  && Bool.eqb (plain_roots_b us (c_rules c)) (c_plain c)
   && (negb (c_need_sup c) || (extra_b us (c_rules c) && lits_b (c_rules c) (lookup_lit (c_lits c)) && disj_b (c_rules c)))
   && forallb (check_run c (c_need_sup c)) (c_runs c).
 
@@ -241,6 +250,7 @@ Definition check_case_code (c : rcase) : nat :=
   let us := uscore_of (c_names c) in
   if negb (check_rules c) then 1
   else if negb (Bool.eqb (class_b us (c_rules c)) (c_in_class c)) then 2
+  else if negb (Bool.eqb (plain_roots_b us (c_rules c)) (c_plain c)) then 2
   else if negb (negb (c_need_sup c) || (extra_b us (c_rules c) && lits_b (c_rules c) (lookup_lit (c_lits c)) && disj_b (c_rules c))) then 2
   else if negb (forallb (fun r => let '(_, ms, _, _) := r in forallb (check_match c (c_need_sup c)) ms) (c_runs c)) then 3
   else if negb (forallb (check_run c (c_need_sup c)) (c_runs c)) then 4
